@@ -213,6 +213,22 @@ def main(tier, seed, replay=None):
         rep.count()
         if s1 == s2 and str(s1) != str(s2):
             rep.violation("input", "the sets built by adding %r then %r and %r then %r are equal but render %s and %s" % (a, b, b, a, s1, s2), check="order-representative", a=repr(a), b=repr(b))
+    # ---- equal containers built in two orders, used as elements / keys one level up: one element, one key, one text - and it reads back
+    nb = 0
+    for inner in [[1, 3], [3, 1, 2], ["b", "a"], [2, 10, 9], [[1], [0]], [1, 9], [9, 1, 17]]:
+        for kind in ("set", "map"):
+            fw, bw = list(inner), list(reversed(inner))
+            mk = (lambda l: gal.SetV(tuple(l))) if kind == "set" else (lambda l: gal.MapV(tuple((x, 7) for x in l)))
+            a, b = gal.src(mk(fw)), gal.src(mk(bw))
+            prog = ("def a = %s; def b = %s; def s = <<a, b>>; def m = <<<>>>; m[a] = 1; m[b] = 2; def t = <<b>>; append(t, a); "
+                    "[a == b, length(s), length(m), length(t), string(s) == string(<<a>>), string(<<a>>) == string(<<b>>), <<a>> == <<b>>, eval(string(s)) == s, string(eval(string(m))) == string(m), [s] == [<<b>>]]" % (a, b))
+            k1, v1 = reval(prog)
+            rep.count()
+            want = "[TRUE, 1, 1, 1, TRUE, TRUE, TRUE, TRUE, TRUE, TRUE]"
+            if k1 != "val" or str(v1) != want:
+                nb += 1
+                rep.violation("input", "%s gives %s, expected %s" % (prog, str(v1)[:200], want), check="nested-order", src=prog)
+    rep.oblige("equal sets / maps built in two orders are one element, one key and one text inside a set or map, and that text reads back", nb == 0, "%d failures" % nb)
     # ---- values produced by programs (conversions), not only by the value constructors
     PROGS = ["decimal(9007199254740993)", "decimal(-9007199254740993)", "9007199254740993 * 1.0", "10 * 1.5", "int(2.5e15)", "decimal(7)", "int('12')", "decimal('1e5')",
              "1 / 3.0", "2 * 0.1", "10000000000000000 + 0.5", "[decimal(3), int(3.7), string(1.5)]", "<<decimal(2), 3>>", "<<<decimal(2) => int(4.9)>>>", "round(2.567, 2)",
